@@ -512,6 +512,9 @@ func (u *Unit) syncCall(st *State, fr *Frame, site ssa.Instruction, name string,
 		u.ghostSet(st, "held", SInt, mu, Add(held, IntLit(1)))
 		st.LocksTouched = append(st.LocksTouched, mu)
 		u.onLock(st, fr, mu)
+		if st.LockSnap == nil {
+			st.LockSnap = st.Clone()
+		}
 		return true
 	case "(*sync.Mutex).Unlock", "(*sync.RWMutex).Unlock", "(*sync.RWMutex).RUnlock":
 		mu := args[0]
